@@ -239,14 +239,20 @@ class Ranges:
         rng = self.ranges
         if len(rng) <= 1:
             return self
-        it = range(min(r['n1'] for r in rng), max(r['n2'] for r in rng) + 1)
-        it = ['{0}:{0}'.format(_index2col(c)) for c in it]
-        spl = (self & Ranges().pushes(it))._merge()
+        it = sorted({
+            (r['sheet_id'], c) for r in rng for c in range(r['n1'], r['n2'] + 1)
+        })
+        it = tuple({
+            'sheet_id': s, 'n1': c, 'n2': c, 'r1': '0', 'r2': str(maxrow)
+        } for s, c in it)  # Columns of each sheet.
+        spl = (self & Ranges(it))._merge()
         return spl
 
     def _merge(self):
         # noinspection PyPep8
-        key = lambda x: (x['n1'], int(x['r1']), -x['n2'], -int(x['r2']))
+        key = lambda x: (
+            x['sheet_id'], x['n1'], int(x['r1']), -x['n2'], -int(x['r2'])
+        )
         rng = self.ranges
         for merge, select in ((_merge_raw_update, 1), (_merge_col_update, 0)):
             it, rng = sorted(rng, key=key), []
